@@ -28,6 +28,15 @@ CLAIMED = {
                      "converter built separately; z3 decides which members accept, and the union must equal the left-most accepting one, "
                      "on every path; serialisation must coincide with an accepting member's.",
                 design_ref="DESIGN.md 5/C11", technique="symbolic execution (CrossHair+z3), member converters as oracle"),
+    'C12': dict(text="The tagged-union converter is executed symbolically on mappings assembled from symbolic parts (tag presence/kind, "
+                     "body fields, layout malformations) for 3 variant sets x 3 layouts; z3 explores every feasible combination and the "
+                     "result/verdict/error tree must be exactly those of the variant named by the tag (its own converter, built "
+                     "separately), and into_data must have the layout's shape and read back.",
+                design_ref="DESIGN.md 5/C12", technique="symbolic execution (CrossHair+z3), variant's own converter as oracle"),
+    'C13': dict(text="Each of 35 condition expressions (+7 length conditions, element-type conditions, raising predicates, the pure-python "
+                     "broadcasting rule) is executed on a symbolic int / symbolic float (nan, inf and every boundary are the solver's "
+                     "choice) and compared with the arithmetic predicate written from the documentation, on every path.",
+                design_ref="DESIGN.md 5/C13", technique="symbolic execution (CrossHair+z3) vs arithmetic reference predicates"),
 }
 
 NA = {
